@@ -22,7 +22,7 @@ DYN_TRUST = REALS + GLUE_TRUST + ["element-layer model Blocks.v (proved equal to
                      "(C09) and validb is the validation model (C06)"]
 
 PROPS = {
-    "C01": dict(GLUE, prop_file="props/C01.v", generators=ENG + ["T-blocks"], module="harness.p_dyn",
+    "C01": dict(extra_prop_files=GLUE["extra_prop_files"] + ["props/GlueC01.v"], prop_file="props/C01.v", generators=ENG + ["T-blocks"], module="harness.p_dyn",
                 slice="Blocks.v trees (both generated engines) vs NumPy step and CasADi SX/MX functions",
                 trusted=DYN_TRUST),
     "C02": dict(GLUE, prop_file="props/C02.v", generators=ENG + ["T-blocks"], module="harness.p_dyn",
